@@ -1105,6 +1105,8 @@ func init() {
 		}
 		// lists in which the same node object occurs several times
 		c09aliased(c, tame, wild)
+		// deep inputs
+		c09deep(c, tame)
 		c.Notes = append(c.Notes,
 			"INDI / FAM / HUSB / WIFE / CHIL nodes are decoded from GEDCOM text (they cannot be built with gedcom.NewNode); with them the always-merge function is replaced by the equality merge function",
 			"the destination document is observed before/after: every record the call appends (empty FAM records from document.AddFamily inside Filter) is part of the observation",
